@@ -453,16 +453,38 @@ def h_source(hv: int) -> str:
 	`Mid(Box[int])` whose users read the inherited member through a Held receiver, and a function with 10..12 parameters of mixed
 	types whose result type reaches the caller's output (`float b = mix(..)`): eleven or more sibling attributes on one symbol."""
 	sh = h_shape(hv)
-	head = ['from typing import Generic, TypeVar', '', "T = TypeVar('T')", '', 'class Box(Generic[T]):'] if sh['form'] == 0 else ['class Box[T]:']
+	head = ['from typing import Generic, TypeVar', '', "T = TypeVar('T')", *H_METHOD_VARS, '', 'class Box(Generic[T]):'] if sh['form'] == 0 \
+		else ['from typing import TypeVar', '', *H_METHOD_VARS, '', 'class Box[T]:']
 	lines = [*head, '\tv: T', '', '\tdef __init__(self, v: T) -> None:', '\t\tself.v = v', '']
+	# methods and an operator whose PARAMETERS nest the class type variable one level: every using module instantiates Box with
+	# another actual type, so resolving a call must not write the actual type into the shared schema of the method
+	lines += ["\tdef __add__(self, other: list[T]) -> 'Box[T]':", '\t\treturn self', '', '\tdef put(self, d: dict[str, T]) -> int:', '\t\treturn 0', '',
+		'\tdef opt(self, o: T | None) -> int:', '\t\treturn 0', '']
 	if sh['depth']:
 		lines += [f"class Mid(Box[{sh['arg']}]): ...", '', 'class Held(Mid):']
 	else:
 		lines += [f"class Held(Box[{sh['arg']}]):"]
 	lines += ['\tdef twice(self, x: int) -> int:', '\t\treturn x', '']
 	ps = ', '.join(f'a{i}: {t}' for i, t in enumerate(sh['params']))
-	lines += [f"def mix({ps}) -> {sh['ret']}:", f"\treturn {H_LITS[sh['ret']]}"]
+	lines += [f"def mix({ps}) -> {sh['ret']}:", f"\treturn {H_LITS[sh['ret']]}", '']
+	# a non generic class whose methods (instance, class method) introduce several type variables of their own: the order of the
+	# C++ template parameters is the order of first use, in every process and under every hash seed
+	lines += ['class Holder:', '\tdef put(self, key: TK, value: TV, other: TO, more: TW) -> TV:', '\t\treturn value', '',
+		'\t@classmethod', '\tdef make(cls, other: TO, key: TK, value: TV) -> TO:', '\t\treturn other', '',
+		'\tdef one(self, key: TK) -> TK:', '\t\treturn key']
 	return '\n'.join(lines)
+
+
+H_METHOD_VARS = ["TK = TypeVar('TK')", "TV = TypeVar('TV')", "TO = TypeVar('TO')", "TW = TypeVar('TW')"]
+H_BOX_FORMS = ['add', 'put', 'opt']
+
+
+def h_box_src(user: str, form: str) -> list[str]:
+	"""A use of the generic class with an actual type that depends on the USING module (two modules of one pool differ)."""
+	t = H_TYPES[sum(map(ord, user)) % len(H_TYPES)]
+	lit = H_LITS[t]
+	expr = f'Box[{t}]({lit}) + [{lit}]' if form == 'add' else f"Box[{t}]({lit}).put({{'k': {lit}}})" if form == 'put' else f'Box[{t}]({lit}).opt({lit})'
+	return [f'b = {expr}', 'return x']
 
 
 def h_member_src(hv: int) -> list[str]:
@@ -477,8 +499,9 @@ def stub_h(hv: int) -> dict[str, Any]:
 	"""The shapes module as the model sees it: `Held.twice` and `mix.a0` as named keys (what a using method needs), the rest as a number;
 	the declaration with Generic/TypeVar imports the library closure module `typing` (a bare dependency edge)."""
 	meth = lambda n: {'name': n, 'call': None, 'bad': False, 'lam': False}  # noqa: E731
-	return {'name': H_NAME, 'ok': True, 'imports': [('typing', '')] if h_shape(hv)['form'] == 0 else [],
-		'classes': [{'name': 'Held', 'methods': [meth('twice')]}, {'name': 'mix', 'methods': [meth('a0')]}], 'vars': [], 'stub': 'h', 'hv': hv}
+	return {'name': H_NAME, 'ok': True, 'imports': [('typing', '')],
+		'classes': [{'name': 'Held', 'methods': [meth('twice')]}, {'name': 'mix', 'methods': [meth('a0')]}, {'name': 'Box', 'methods': [meth('opt')]}],
+		'vars': [], 'stub': 'h', 'hv': hv}
 
 
 _H_KEYS: dict[int, int] = {}
@@ -493,8 +516,8 @@ def stub_extra(ctx: Ctx, mod: dict[str, Any]) -> int:
 		if hv not in _H_KEYS:
 			proj = ctx.tmpdir('c04-h-')
 			write_pool(proj, [mod])
-			_H_KEYS[hv] = measured_keys(ctx, proj, H_NAME, 8)
-		return _H_KEYS[hv] - 8
+			_H_KEYS[hv] = measured_keys(ctx, proj, H_NAME, 12)
+		return _H_KEYS[hv] - 12
 	return 0
 
 
@@ -517,7 +540,7 @@ def gen_module(rng: random.Random, name: str, earlier: list[dict[str, Any]], p_b
 	if uses_g:
 		mod['imports'].append((G_NAME, 'cube'))
 	# users of the shapes module: readers of the inherited template typed member and / or callers of the wide function
-	h_uses = rng.choice([[], ['Held'], ['mix'], ['Held', 'mix'], ['Held', 'mix']]) if hs else []
+	h_uses = rng.choice([[], ['Held'], ['mix'], ['Held', 'mix'], ['Box'], ['Box'], ['Held', 'Box'], ['mix', 'Box']]) if hs else []
 	for n in h_uses:
 		mod['imports'].append((H_NAME, n))
 	for dep in chosen:
@@ -552,8 +575,8 @@ def gen_module(rng: random.Random, name: str, earlier: list[dict[str, Any]], p_b
 				elif h_uses and rng.random() < 0.7:
 					# modelled like a call as well: one local `b`, the renderer needs `app.h#Held.twice` / `app.h#mix.a0`
 					use = rng.choice(h_uses)
-					meth['call'] = (H_NAME, 'Held', 'twice') if use == 'Held' else (H_NAME, 'mix', 'a0')
-					meth['src'] = h_member_src(hs[0]['hv']) if use == 'Held' else h_wide_src(hs[0]['hv'])
+					meth['call'] = (H_NAME, 'Held', 'twice') if use == 'Held' else (H_NAME, 'mix', 'a0') if use == 'mix' else (H_NAME, 'Box', 'opt')
+					meth['src'] = h_member_src(hs[0]['hv']) if use == 'Held' else h_wide_src(hs[0]['hv']) if use == 'mix' else h_box_src(name, rng.choice(H_BOX_FORMS))
 				elif callable_imports and rng.random() < 0.6:
 					dep, b = rng.choice(callable_imports)
 					meth['call'] = (dep, b, 'g')
@@ -1233,6 +1256,25 @@ def gen_cases(ctx: Ctx, stream: str, n: int, max_ops: int, p_bad: float) -> list
 	return cases
 
 
+def shared_generic_case(ctx: Ctx) -> dict[str, Any]:
+	"""Two modules of one session instantiate the generic class of the shapes module with DIFFERENT actual types (operator and methods
+	whose parameters nest the class type variable), requested in both orders, around an unload, and the shapes module itself (methods
+	with several type variables of their own); every answer under ALL hash seeds."""
+	rng = ctx.sub_rng('shared-generic')
+	h = stub_h(rng.randrange(H_VARIANTS))
+	users = rng.sample(['app.a', 'app.ab', 'app.b', 'app.ba', 'app.c'], 2)
+	if h_box_src(users[0], 'add') == h_box_src(users[1], 'add'):
+		users[1] = next(n for n in ['app.a', 'app.ab', 'app.b', 'app.ba', 'app.c'] if h_box_src(n, 'add') != h_box_src(users[0], 'add'))
+	pool = [h]
+	for u in users:
+		forms = rng.sample(H_BOX_FORMS, 2)
+		pool.append({'name': u, 'ok': True, 'imports': [(H_NAME, 'Box')], 'vars': [], 'classes': [{'name': f'{cls_prefix(u)}0', 'methods': [
+			{'name': n, 'call': (H_NAME, 'Box', 'opt'), 'bad': False, 'lam': False, 'src': h_box_src(u, f)} for n, f in zip(('g', 'h'), ['add', forms[0]] if forms[0] != 'add' else ['add', forms[1]])]}]})
+	x, y = users
+	ops = [['transpile', x], ['transpile', y], ['transpile', x], ['unload', y], ['transpile', y], ['transpile', H_NAME], ['unload', H_NAME], ['transpile', y], ['transpile', x]]
+	return {'id': 'shared-generic#0', 'pool': pool, 'ops': ops, 'seeds': list(HASH_SEEDS)}
+
+
 def case_class(case: dict[str, Any]) -> str:
 	bad = sum(1 for m in case['pool'] if not m['ok'] or m.get('crash') or any(not ok for _, ok in m['vars']) or any(n == 'Nope' for _, n in m['imports']))
 	late = sum(1 for m in case['pool'] if m.get('late'))
@@ -1337,7 +1379,7 @@ def search_fresh(ctx: Ctx, cases: list[dict[str, Any]], all_seed_cases: int) -> 
 		if case['id'] not in _RUNS or over_deadline(ctx, 'search fresh'):
 			continue
 		run = session_run(ctx, case)
-		seeds = HASH_SEEDS if n < all_seed_cases else [HASH_SEEDS[n % len(HASH_SEEDS)]]
+		seeds = case.get('seeds') or (HASH_SEEDS if n < all_seed_cases else [HASH_SEEDS[n % len(HASH_SEEDS)]])
 		compare_with_fresh(ctx, res, case, run, seeds, seen)
 	res.distinct = len(seen)
 	res.note = f'{len(cases)} sessions; the first {all_seed_cases} under all four hash seeds, the others under one rotating seed'
@@ -1839,7 +1881,7 @@ def run_checked(ctx: Ctx, before: str | None) -> int:
 			translate_ok, translate_msg = False, f'Generated/LibClosure.lean does not describe the library closure of the real code: {d}'
 	corpus = [norm_case(c) for c in corpus_cases()]
 	with ctx.timed('generate'):
-		valid = gen_cases(ctx, 'session', ctx.scale(5, 60), ctx.scale(12, 40), 0.15)
+		valid = [shared_generic_case(ctx), *gen_cases(ctx, 'session', ctx.scale(4, 60), ctx.scale(12, 40), 0.15)]
 		faulty = gen_cases(ctx, 'session-faulty', ctx.scale(6, 40), ctx.scale(12, 40), 1.0)
 		n_faulty = ctx.scale(6, 40)
 	fresh_cases = [*corpus, *valid[:ctx.scale(2, 20)], *faulty[:ctx.scale(2, 12)]]
